@@ -5,7 +5,7 @@ From Gnmi Require Import Base.Prelude Client.ClientModel Client.ClientCheck Clie
 Local Arguments Nat.ltb : simpl never.
 
 Ltac dst s :=
-  destruct s as [spc0 att0 conn0 curcl0 err0 cpc0 cw0 cok0 xpc0 rcl0 hc0 sd0 cr0 cp0 nc0 ns0 bc0 bi0 bm0 cd0].
+  destruct s as [spc0 att0 conn0 curcl0 err0 cpc0 cw0 cok0 xpc0 rcl0 hc0 sd0 cr0 cp0 nc0 ns0 bc0 bi0 bm0 cd0 pp0 pw0].
 
 (** ** through a ReconnectClient: nothing at all after a Close returned,
        whatever calls follow ([p.closed] is a latch) *)
